@@ -153,6 +153,57 @@ def structure_checks(code, rng, fail, vec_checks=6):
         if gf2.row_to_int(code.to_bsf(d)) != gf2.row_to_int(vec):
             fail('to_bsf(from_bsf)', f'vector {vec.tolist()[:20]}..')
             break
+    # the dictionary depends on the value of the vector only, not on how a
+    # sparse row happens to store it: rows produced the way the library (and
+    # users) produce them - sums reduced with `data %= 2` (explicitly stored
+    # zeros where two ones cancel), matrix products `selection @ H`
+    # (unsorted column indices), coo rows in arbitrary order
+    from scipy.sparse import csr_matrix as _csr, coo_matrix as _coo
+
+    def decode(vec):
+        out = {}
+        for q in range(n):
+            xz = (int(vec[q]) & 1, int(vec[n + q]) & 1)
+            if xz != (0, 0):
+                out[tuple(qc[q])] = {(1, 0): 'X', (0, 1): 'Z', (1, 1): 'Y'}[xz]
+        return out
+
+    for t in range(max(2, vec_checks // 2)):
+        sel = (rng.random((1, m)) < min(0.5, 3.0 / max(m, 1))).astype(np.uint8)
+        sel[0, rng.choice(m, size=min(m, 2), replace=False)] = 1
+        dense = (sel.astype(np.int64) @ Hd.astype(np.int64))[0] % 2
+        noise_ = (rng.random(2 * n) < 1.5 / n).astype(np.int64)
+        forms = []
+        prod = _csr(sel) @ H
+        prod.data %= 2
+        forms.append(('csr_product', prod, dense))
+        picked = np.nonzero(sel[0])[0]
+        acc = H[int(picked[0])]
+        for i in picked[1:]:
+            acc = acc + H[int(i)]
+            acc.data %= 2
+        forms.append(('csr_sum_mod2', acc, dense))
+        w = (dense + noise_) % 2
+        acc2 = _csr(dense.astype(np.uint8).reshape(1, -1)) + _csr(noise_.astype(np.uint8).reshape(1, -1))
+        acc2.data %= 2
+        forms.append(('csr_sum_with_stored_zeros', acc2, w))
+        cols_ = np.nonzero(w)[0]
+        perm = rng.permutation(len(cols_))
+        forms.append(('coo_shuffled', _coo((np.ones(len(cols_), dtype=np.uint8),
+                                            (np.zeros(len(cols_), dtype=int), cols_[perm])),
+                                           shape=(1, 2 * n)), w))
+        forms.append(('csr_unsorted', _csr((np.ones(len(cols_), dtype=np.uint8), cols_[perm],
+                                            np.array([0, len(cols_)])), shape=(1, 2 * n)), w))
+        for tag, row, vec_ in forms:
+            got = code.from_bsf(row)
+            if {tuple(k): p for k, p in got.items()} != decode(vec_):
+                diff = {k: (got.get(k), decode(vec_).get(k))
+                        for k in set(got) | set(decode(vec_))
+                        if got.get(k) != decode(vec_).get(k)}
+                fail('from_bsf_sparse_storage',
+                     f'{tag}: from_bsf of a sparse row differs from the dictionary of the '
+                     f'vector it stores on {dict(list(diff.items())[:3])} (got, want)')
+                break
     # CSS structure
     xi = np.asarray(code.x_indices)
     zi = np.asarray(code.z_indices)
